@@ -7,7 +7,7 @@ CONSTANTS
   MaxArms = 1
   Rearm = FALSE
   Depth = 4
-  Warm = {"cold", "one", "two"}
+  Warm = {"cold", "two"}
 SPECIFICATION GSpec
 VIEW GView
 CONSTRAINT EmitBeh
